@@ -32,6 +32,7 @@ def run_one(prop, seed, i, tier):
     clean = [{k: v for k, v in s.items() if not k.startswith("_")} for s in steps]
     res = {"viol": None, "probes": w.probes, "stats": w.stats, "steps": w.nsteps,
            "faults": {k: v for k, v in w.stats.items() if k.startswith("fault_") or k.startswith("outside_")}}
+    res["logd"] = digest([clean, [jsonable(r.model) for r in w.res], [jsonable(r.disk) for r in w.res], sorted(w.probes.items()), viol and viol["kind"]])
     sig = prop.signature(w, cfg, clean)
     if sig is not None:
         res["sig"] = digest(sig)
